@@ -688,3 +688,10 @@ func init() {
 			"byte-level malformation of replies is C10's business; here scripts are sequences of well-formed packages"},
 	})
 }
+
+// rule addenda (rounds 9-12): what the evidence says about the coverage of a run
+func init() {
+	if p := registry["C08"]; p != nil {
+		p.Rule += " Edits include DONE status words with bits above 0x80, ENVCHANGE in front of any reply package, CAPABILITY replies that leave a type out, keys that are white space / a half key / followed by blank lines, and PARAMS whose LONGBINARY length field is 0xFFFFFFFF / 0x80000000 / 0x7FFFFFFF (outside the login model: judged by the oracle only)."
+	}
+}
